@@ -7,9 +7,9 @@
    advance - a block-time decrease is refused, so block times are monotone) by any senders other than the module
    account, with any arguments, from any genesis with funded accounts and nothing locked; every handler runs
    atomically ([step]).  [reachable t0 fund allowed ops] is the state after the history. *)
-From Coq Require Import ZArith List Bool.
+From Coq Require Import ZArith List Bool Lia.
 Import ListNotations.
-From Osmo Require Import C06.Model C06.Proofs C06.ProofsAcc C06.ProofsRefs C06.ProofsQuery C06.ProofsCons C06.ProofsTime C06.ProofsEvol C06.ProofsRelease.
+From Osmo Require Import C06.Model C06.Proofs C06.ProofsAcc C06.ProofsRefs C06.ProofsQuery C06.ProofsCons C06.ProofsTime C06.ProofsEvol C06.ProofsRelease C06.ProofsGenesis.
 Open Scope Z_scope.
 
 (* the lockup module account holds exactly the sum of all live locks' coins *)
@@ -198,6 +198,22 @@ Theorem C06_split_preserves : forall s o id dn amt s' l, Inv0 s ->
 Proof. exact split_preserves. Qed.
 Print Assumptions C06_split_preserves.
 
+(* the same statements for histories from any well-formed genesis: keeper.InitGenesis (SetLastLockID + InitializeAllLocks) over a
+   bank genesis in which the module account holds the genesis locks' coins; well-formed = unique ids in 1..last, owners are
+   ordinary accounts, positive durations and amounts *)
+Theorem C06_from_genesis : forall t0 fund allowed last ls s0 ops,
+  0 < t0 -> 0 <= last -> genesis_ok last ls -> genesis_state t0 fund allowed last ls = Ok s0 -> Forall op_sender_ok ops ->
+  let s := run s0 ops in
+  Inv s /\ amt_pos s /\
+  (forall dn, s_bal s module_acc dn = coins_of (s_locks s) dn) /\
+  (forall dn d, dn <> 0 -> 0 <= d -> get_period_locks_accumulation s dn d = locked_longer (s_locks s) dn d) /\
+  (forall a dn, a <> module_acc -> wealth s a dn = fund a dn + lsum (co a dn) ls) /\
+  (forall o a dn, op_sender_ok o -> a <> module_acc -> (forall id dn0 amt, o <> OForce a id dn0 amt) ->
+     s_bal (fst (step s o)) a dn <= s_bal s a dn + matured_amount s a dn) /\
+  (forall o, Evol s (fst (step s o))).
+Proof. exact from_genesis. Qed.
+Print Assumptions C06_from_genesis.
+
 (* non-vacuity: two owners, locks sharing a duration, add-to-existing, partial unlock (split), maturity, withdrawal,
    extension, partial force-unlock of an unlocking lock, end-block *)
 Definition nv_fund (a dn : Z) : Z := 1000.
@@ -245,3 +261,13 @@ Example C06_nonvacuous_time_lock :
   bt 1 = 12 /\ s_now s = 17 /\ map l_end (s_locks s) = [17] /\ get_lock (s_locks (fst (step s (OUnlock 1)))) 1 = None /\
   s_bal (fst (step s (OUnlock 1))) 1 1 = 1000.
 Proof. split; [repeat constructor; cbn; discriminate|]. vm_compute. repeat split. Qed.
+Definition nv_gen : list lock := [mkLock 2 1 1 50 5 0 0; mkLock 5 2 2 30 9 12 3].
+Example C06_nonvacuous_genesis :
+  genesis_ok 7 nv_gen /\
+  exists s0, genesis_state 20 nv_fund [] 7 nv_gen = Ok s0 /\
+    let s := run s0 [OLock 1 1 20 5; OWithdraw 0; OLock 2 2 5 9] in
+    map l_id (s_locks s) = [2; 8] /\ map l_amt (s_locks s) = [70; 5] /\ s_bal s 2 2 = 1025 /\ s_bal s module_acc 1 = 70 /\ s_last s = 8.
+Proof.
+  split; [split; [repeat constructor; cbn; intuition discriminate|repeat constructor; cbn; try lia; discriminate]|].
+  eexists. split; [vm_compute; reflexivity|]. vm_compute. repeat split.
+Qed.
